@@ -21,6 +21,9 @@ Sub-checks
                first_aug_identity=False, feats; one model object on successive batches of other sizes / phases.
   Round 3b   : evaluation on op / pctsp / spctsp / pdp / sdvrp / cvrptw, the evaluator kwargs top_p / softmax_temp /
                feats / force_dihedral_8=False / _inner(num_augment=), and evaluate_policy's default automatic batch size.
+  History    : evaluation with the Eval classes: one case in three calls the SAME evaluator object twice (another data
+               set of another size / loader batch size first, e.g. validation set then test set); everything is asserted
+               for the second call as for a first one, and the first call's returned tensors must stay what they were.
 """
 import contextlib
 import io
@@ -62,7 +65,13 @@ RULE = (
     "size is read from the evaluator's reset calls. pomo_step: augment_fn symmetric|dihedral8|callable (harness "
     "rotation/reflection), num_augment 0-6 (<= 1 = augmentation off), first_aug_identity=False (F11 rows reported "
     "under F11's signature), feats=['locs'], PolyNet val/test step (k 2-4, val_num_solutions 2-5, num_augment >= 1), and "
-    "histories: the same model object on 1-2 further batches of other sizes / phases (val|test|train)."
+    "histories: the same model object on 1-2 further batches of other sizes / phases (val|test|train). "
+    "evaluation history (1/3 of the api=class cases, key 'hist'): after the ordinary pass with a fresh evaluator object "
+    "a second pass builds a new evaluator OBJECT that is first called on another data "
+    "set (own seed, size 1..N+3, loader batch size = the case's one | 1..size+1 | 2-5; same env / policy / spies) and "
+    "only then on the case's data set; the spy log is cut between the two calls, every assertion of the sub is made on "
+    "the SECOND call (signatures end in |reused_object: the fresh-object pass of the same case passed), the first call is checked for shape [size], loader batches, "
+    "reward == objective of its returned actions, and its returned tensors must be bit-identical after the second call."
 )
 ASSUMPTIONS = [
     "normalize=True (min_max_normalize) rescales coordinates by design and is outside the asserted domain",
@@ -96,6 +105,10 @@ ASSUMPTIONS = [
     "PolyNet(num_augment=0) raises IndexError in its val/test step (POMO accepts 0): PolyNet's documented 'no "
     "augmentation' value is 1 (encoder_type='MatNet'), 0 is not drawn for it; SymNCO train steps between evaluation "
     "steps are skipped (they need a SymNCOPolicy, the evaluation steps use the AM policy)",
+    "an evaluator object is a reusable callable (EvalBase.__call__(policy, dataloader) 'evaluate the policy on the given "
+    "dataloader'; real callers evaluate a validation and a test set with one object): a call's result describes exactly "
+    "the data set passed to THAT call, whatever the object evaluated before; both calls of a history use the same "
+    "policy, env and (where drawn) the same num_augment= keyword",
     "mtsp actions are judged after stripping the trailing depot padding; num_starts <= num_loc - 1 customers; "
     "flp/mcp/ffsp/fjsp/mpdp (other state-reward envs) have no AttentionModelPolicy embeddings or are expensive and "
     "are left to C03/C12",
@@ -471,6 +484,11 @@ def eval_cases(draw, tier="quick"):
         st_ = draw(st.sampled_from(["absent", "absent", "none", 0.5, 2.0]))  # (accepted, stored, passed on to the policy)
         if st_ != "absent":
             c["softmax_temp"] = None if st_ == "none" else st_
+    if api == "class" and draw(st.integers(0, 2)) == 0:
+        # history: the evaluator object has been called before, on ANOTHER data set (validation set, then test set)
+        N1 = draw(st.one_of(st.integers(1, N + 3), st.sampled_from([N, N + 1, max(1, N - 1)])))
+        c["hist"] = dict(N=N1, bs=draw(st.one_of(st.just(bs), st.integers(1, N1 + 1), st.sampled_from([2, 3, 4, 5]))),
+                         dseed=draw(SEED), tseed=draw(SEED))
     if auto:
         r = _ratio(c)
         # start_batch_size "the theoretical maximum": r * q leaves q instances per batch before the cap and the
@@ -672,7 +690,9 @@ def _greedy_reference(case, policy, env, td0, sizes):
     return outs
 
 
-def _run_eval(case, ctx, env_spy, pol_spy, ds):
+def _run_eval(case, ctx, env_spy, pol_spy, ds, warm=None):
+    """warm (api == "class" only) = {"ds": another data set, "log": the spy log}: the evaluator object is first called on
+    that data set; its result, a bit-copy of its tensors and the log position after it are stored into `warm`."""
     from torch.utils.data import DataLoader
 
     from rl4co.tasks import eval as E
@@ -713,12 +733,66 @@ def _run_eval(case, ctx, env_spy, pol_spy, ds):
                "multistart_greedy_augment_dihedral_8": E.GreedyMultiStartAugmentEval}[method]
         fn = ctx.guard(cls, env_spy, progress=False, what=f"{cls.__name__}.__init__", **kw)
         loader = DataLoader(ds, batch_size=bs, shuffle=False, num_workers=0, collate_fn=ds.collate_fn)
+        ckw, what = {}, f"{cls.__name__}|{method}"
         if case.get("inner_na"):
-            return ctx.guard(fn, pol_spy, loader, num_augment=case["na"], what=f"{cls.__name__}|{method}|num_augment=")
-        return ctx.guard(fn, pol_spy, loader, what=f"{cls.__name__}|{method}")
+            ckw, what = dict(num_augment=case["na"]), what + "|num_augment="
+        if warm is not None:
+            h = case["hist"]
+            wl = DataLoader(warm["ds"], batch_size=h["bs"], shuffle=False, num_workers=0, collate_fn=warm["ds"].collate_fn)
+            torch.manual_seed(h["tseed"])
+            first = ctx.guard(fn, pol_spy, wl, what=what + "|first_call_of_history", **ckw)
+            warm.update(first=first, mark=len(warm["log"]),
+                        snap={k: first[k].detach().clone() for k in ("rewards", "actions")})
+            torch.manual_seed(case["tseed"])
+            what += "|reused_object"
+        return ctx.guard(fn, pol_spy, loader, what=what, **ckw)
+
+
+def _first_call(case, ctx, env, hist, warm, first_log, insts1, ct, sl):
+    """History: the first call of the evaluator object (on the other data set).  Its own result is checked lightly
+    (shape, loader batches, reward == objective of the returned actions) - a first call is what every other case
+    examines in full - and its returned tensors must not have been touched by the second call."""
+    name, method, N, N1, bs1 = case["env"], case["method"], case["N"], hist["N"], hist["bs"]
+    first, snap = warm["first"], warm["snap"]
+    sizes1 = [min(bs1, N1 - s) for s in range(0, N1, bs1)]
+    nb1, nb2 = len(sizes1), len(range(0, N, case["bs"]))
+    ctx.event(f"history:evaluator_reused|{method}")
+    ctx.event("history:first_data_set=" + ("smaller" if N1 < N else "same_size" if N1 == N else "larger"))
+    ctx.event("history:loader_batch_size=" + ("same" if bs1 == case["bs"] else "other") +
+              "|batches=" + ("same_count" if nb1 == nb2 else "other_count"))
+    r1, a1 = first["rewards"], first["actions"]
+    for k in ("rewards", "actions"):
+        same = first[k].shape == snap[k].shape and torch.equal(first[k], snap[k])
+        ctx.check(same, f"first_result_changed_by_second_call|{sl}",
+                  f"{k!r} returned by the first call of the evaluator object ({N1} instances) changed during its second "
+                  f"call ({N} instances): shape {tuple(snap[k].shape)} -> {tuple(first[k].shape)}")
+    if not ctx.check(r1.dim() == 1 and r1.shape[0] == N1 and a1.dim() == 2 and a1.shape[0] == N1,
+                     f"eval_shape|{sl}|first_call", f"rewards {tuple(r1.shape)}, actions {tuple(a1.shape)} for {N1} "
+                     f"instances (loader batches {sizes1})"):
+        return
+    seen1 = [g["B"] for g in _groups(first_log)]
+    ctx.check(seen1 == sizes1, f"eval_batches|{sl}|first_call", f"evaluator reset batches {seen1}, expected {sizes1}")
+    R1, A1 = r1.double().tolist(), a1.tolist()
+    for i in range(N1):
+        v = _judge(name, insts1[i], A1[i], ct)
+        if not _close(R1[i], v.obj, v.terms):
+            ctx.violation(f"reward_not_objective_of_returned_actions|{sl}|first_call",
+                          f"first call of the evaluator object, instance {i} of {N1} (loader batches {sizes1}): reported "
+                          f"reward {R1[i]} but the returned actions {A1[i]} cost {v.obj} on it", {"instance": insts1[i]})
 
 
 def exec_eval(case, ctx):
+    """The case with a FRESH evaluator object (called once); a history case ('hist', api == "class") then once more
+    with an evaluator object that has evaluated another data set before.  The second pass only runs when the first one
+    passed, so a signature ending in |reused_object names a failure that needs the earlier call (and the minimiser's
+    candidate without 'hist' keeps the plain signature of a failure that does not)."""
+    _exec_eval(case, ctx, None)
+    if case.get("hist") and case["api"] == "class":
+        _exec_eval(case, ctx, case["hist"])
+
+
+def _exec_eval(case, ctx, hist):
+    ev = ctx.event if hist is None else (lambda *a, **k: None)  # (class counts of the case itself: first pass only)
     name, n, N, bs, method = (case[k] for k in ("env", "n", "N", "bs", "method"))
     sl = method if name in ("tsp", "cvrp") else (f"{method}|mtsp|{case['ct']}" if name == "mtsp" else f"{method}|{name}")
     env = _sized_env(name, n, case)
@@ -734,8 +808,19 @@ def exec_eval(case, ctx):
         # every method must report in the objective of the evaluator's env (F47: sampling used to return the reward of
         # a default env that the policy rebuilt from its env name, i.e. the minmax objective for a cost_type="sum" env)
         ct = ct_of["eval"]
-        ctx.event(f"mtsp|cost_type={case['ct']}|{method}")
-    out = _run_eval(case, ctx, SpyEnv(env, log, "eval"), SpyPolicy(policy, log), ds)
+        ev(f"mtsp|cost_type={case['ct']}|{method}")
+    warm, note = None, ""
+    if hist:
+        wds, wtd0 = _dataset({**case, "N": hist["N"], "dseed": hist["dseed"]}, env)
+        warm = dict(ds=wds, log=log)
+        sl += "|reused_object"
+        note = (f" [second call of the evaluator object; its first call evaluated another data set of {hist['N']} "
+                f"instances in loader batches of {hist['bs']}]")
+    out = _run_eval(case, ctx, SpyEnv(env, log, "eval"), SpyPolicy(policy, log), ds, warm)
+    if hist:
+        # the spy log holds the calls of both evaluations: everything below refers to the second one only
+        first_log, log = log[:warm["mark"]], log[warm["mark"]:]
+        _first_call(case, ctx, env, hist, warm, first_log, _instances(name, wtd0), ct, sl)
 
     groups = _groups(log)
     seen = [g["B"] for g in groups]
@@ -754,36 +839,40 @@ def exec_eval(case, ctx):
                   f"{ratio} rollouts per instance")
         ctx.check(b * ratio <= start, f"auto_batch_size|exceeds_start_batch_size|{sl}",
                   f"effective loader batch size {b} x {ratio} rollouts per instance > start_batch_size={start}")
-        ctx.event(f"auto_batch_size|b={'1' if b == 1 else ('>=N' if b >= N else 'k')}|"
+        ev(f"auto_batch_size|b={'1' if b == 1 else ('>=N' if b >= N else 'k')}|"
                   f"cap={'max' if mx < start // max(ratio, 1) else 'start'}")
         if "multistart" in method:
             ns_eff = case["ns"] if case.get("ns") is not None else case["n"]
-            ctx.event(f"auto_batch_size|multistart|num_starts{'<10' if ns_eff < 10 else '>=10'}")
+            ev(f"auto_batch_size|multistart|num_starts{'<10' if ns_eff < 10 else '>=10'}")
         bs = b
         if seen != sizes:
             return
     else:
         sizes = [min(bs, N - s) for s in range(0, N, bs)]
     batching = "single_batch" if len(sizes) == 1 else ("partial_last_batch" if N % bs else "batches_divide")
-    ctx.event(f"method={method}|{case['api']}")
-    ctx.event(f"env={name}|data={case['data']}")
-    ctx.event(batching)
+    ev(f"method={method}|{case['api']}")
+    ev(f"env={name}|data={case['data']}")
+    ev(batching)
     for k in ("top_p", "softmax_temp", "feats", "fd8", "inner_na"):
         if case.get(k) not in (None, 0.0) or (k in case and k in ("softmax_temp", "fd8")):
-            ctx.event(f"kwarg|{k}")
+            ev(f"kwarg|{k}")
 
     rewards, actions = out["rewards"], out["actions"]
     if not ctx.check(rewards.dim() == 1 and rewards.shape[0] == N and actions.dim() == 2 and actions.shape[0] == N,
                      f"eval_shape|{sl}", f"rewards {tuple(rewards.shape)}, actions {tuple(actions.shape)} for "
-                     f"{N} instances (loader batches {sizes})"):
+                     f"{N} instances (loader batches {sizes}){note}"):
         return
     if not ctx.check(seen == sizes, f"eval_batches|{sl}",
-                     f"evaluator reset batches {seen}, expected {sizes}"):
+                     f"evaluator reset batches {seen}, expected {sizes}{note}"):
         return
+    if hist and warm["snap"]["actions"].dim() == 2:
+        # EvalBase pads to the longest action row of ONE call: do the two data sets need different widths?
+        w1, w2 = warm["snap"]["actions"].shape[1], actions.shape[1]
+        ctx.event("history:action_width_first_call=" + ("narrower" if w1 < w2 else "same" if w1 == w2 else "wider"))
     if name in MORE_ENVS:
         # EvalBase pads the action tensors of the loader batches to a common length with zeros
         lens = {len(_strip(a)) for a in actions.tolist()}
-        ctx.event("padded_variable_length" if len(lens) > 1 else "equal_length")
+        ev("padded_variable_length" if len(lens) > 1 else "equal_length")
     cands = _candidates(ctx, name, groups, insts, sizes, sl, ct_of, ct)
     if "multistart" in method:
         # the candidate set is the REQUESTED one: num_starts forced first moves per (augmented) instance - the largest
@@ -794,7 +883,7 @@ def exec_eval(case, ctx):
             ctx.check(per % ns_eff == 0 and (method != "multistart_greedy" or per == ns_eff), f"candidate_count|{sl}",
                       f"num_starts={ns_eff} requested ({'explicitly' if case.get('ns') is not None else 'default'}) but "
                       f"{per} rollouts per instance were decoded for a loader batch of {Bj}")
-        ctx.event(f"candidate_count_checked|{'explicit' if case.get('ns') is not None else 'default'}_num_starts|{case['api']}")
+        ev(f"candidate_count_checked|{'explicit' if case.get('ns') is not None else 'default'}_num_starts|{case['api']}")
     greedy = _greedy_reference(case, policy, env, td0, sizes)
 
     R = rewards.double().tolist()
@@ -805,11 +894,11 @@ def exec_eval(case, ctx):
         v = _judge(name, insts[i], A[i], ct)
         bad = v.bad(1e-4)
         ctx.check(not bad, f"returned_actions_infeasible|{sl}",
-                  f"instance {i}: returned actions {A[i]} are not a solution of it: {bad}", {"instance": insts[i]})
+                  f"instance {i}: returned actions {A[i]} are not a solution of it: {bad}{note}", {"instance": insts[i]})
         if not _close(R[i], v.obj, v.terms):
             ctx.violation(f"reward_not_objective_of_returned_actions|{sl}",
                           f"instance {i} of {N} (loader batches {sizes}): reported reward {R[i]} but the returned "
-                          f"actions {A[i]} cost {v.obj} on it", {"instance": insts[i]})
+                          f"actions {A[i]} cost {v.obj} on it{note}", {"instance": insts[i]})
         # (2) it is the maximum over the instance's candidate rollouts
         objs = [c[0] for c in cands[i]]
         if not ctx.check(len(objs) > 0, f"no_candidates|{sl}", f"no get_reward call observed for instance {i}"):
@@ -830,22 +919,31 @@ def exec_eval(case, ctx):
         gk = _key(name, greedy[i])
         gv = _judge(name, insts[i], greedy[i], ct)
         if gk in {c[1] for c in cands[i]}:
-            ctx.event(f"greedy_among_candidates|{method}")
+            ev(f"greedy_among_candidates|{method}")
             if not R[i] >= gv.obj - 1e-5 * (1 + gv.terms):
                 ctx.violation(f"worse_than_greedy|{sl}", f"instance {i}: reported {R[i]} < greedy {gv.obj} although "
                               f"the greedy rollout {greedy[i]} is among the candidates")
         else:
-            ctx.event(f"greedy_not_among_candidates|{method}")
+            ev(f"greedy_not_among_candidates|{method}")
     if differ:
-        ctx.event("candidates_differ")
+        ev("candidates_differ")
     if first_not_best:  # the best rollout of some instance is not the first one recorded for it (copy/sample 0)
-        ctx.event("best_is_not_first_candidate" + ("|mtsp|" + case["ct"] if name == "mtsp" else ""))
+        ev("best_is_not_first_candidate" + ("|mtsp|" + case["ct"] if name == "mtsp" else ""))
+    if hist is not None:
+        ctx.event("history:second_call_" + ("nontrivial" if batching == "partial_last_batch" and differ else "plain"))
+        return
     if batching == "partial_last_batch" and differ:
         ctx.nontriv()
     ctx.sample({k: v for k, v in case.items() if k not in ("pseed", "dseed", "tseed")})
 
 
 def _min_eval(case):
+    if "hist" in case:
+        yield {k: v for k, v in case.items() if k != "hist"}  # (does it need the earlier call of the object at all?)
+        h = case["hist"]
+        for key, val in (("N", 1), ("N", 2), ("bs", 1), ("bs", case["bs"])):
+            if h[key] != val:
+                yield {**case, "hist": {**h, key: val}}
     for key, val in (("N", 1), ("N", 2), ("N", 3), ("N", max(1, case["N"] - 1)), ("bs", 1), ("bs", 2), ("n", 4),
                      ("E", 16), ("spread", 1.0), ("data", "tdd"), ("api", "class"), ("env", "tsp"),
                      ("na", 2), ("ns", 2), ("samples", 2), ("temperature", 1.0), ("top_k", 0)):
